@@ -197,6 +197,7 @@ struct thr {
     struct timespec held_at;
     unsigned long held_seq;
     int untimed;   /* blocked in an untimed blocking call */
+    unsigned long fail_sig; unsigned long fail_repeat;   /* same failing call over and over (slow spin) */
     int want_release_delay_us; /* jitter */
     int gate;      /* rule index of an A_HOLD gate this thread waits at, or -1 */
     unsigned long nsys;
@@ -258,6 +259,7 @@ static long p_nofile = -1;
 static char p_stdout[PATHMAX] = "", p_stderr[PATHMAX] = "", p_stdin[PATHMAX] = "";
 static long p_wall_ms = 120000, p_cpu_ms = 60000;
 static unsigned long p_max_steps = 5000000;
+static unsigned long p_max_repeat = 3000;
 static int p_marker_fd = -1;
 static int p_driver = 0; /* 0 none, 1 parfile, 2 parblock */
 static int p_roles_probe = 0;
@@ -276,6 +278,8 @@ static char *envs[256]; static int nenvs = 0;
 static unsigned long pct_change[16]; static int pct_nchange = 0; static int pct_drops = 0;
 static unsigned long sched_steps = 0, holds = 0, cap_releases = 0;
 
+static const char *sumfn_global = NULL;
+static void write_summary(const char *fn, int exited, int status, int sig);
 static const char *verdict = "running";
 static char verdict_detail[512] = "";
 static int kill_delivered = 0;
@@ -538,6 +542,7 @@ static void parse_plan(const char *fn)
         else if (!strcmp(s, "cpu_ms")) p_cpu_ms = atol(v);
         else if (!strcmp(s, "deadlock_ms")) p_deadlock_ms = atol(v);
         else if (!strcmp(s, "max_steps")) p_max_steps = strtoul(v, NULL, 0);
+        else if (!strcmp(s, "max_repeat")) p_max_repeat = strtoul(v, NULL, 0);
         else if (!strcmp(s, "marker_fd")) p_marker_fd = atoi(v);
         else if (!strcmp(s, "log_mode")) log_mode = !strcmp(v, "none") ? 0 : !strcmp(v, "min") ? 1 : 2;
         else if (!strcmp(s, "driver")) p_driver = !strcmp(v, "parfile") ? 1 : !strcmp(v, "parblock") ? 2 : 0;
@@ -999,6 +1004,20 @@ static void handle_syscall_stop(struct thr *t)
             act = p->force ? "forced" : "fault";
         } else if (p->shortened) act = "short";
         if (ret == -EMFILE || ret == -ENFILE) n_emfile++;
+        /* slow spin: one thread issuing the very same failing call again and again (sleeping in between does not count as progress) */
+        if (p->se && p->se->nr != 202 && p->se->nr != 35 && p->se->nr != 230 && p->se->nr != 24) {
+            if (ret < 0 && !p->fault_errno && !p->force) {
+                unsigned long sg = (unsigned long)p->nr * 1000003UL ^ p->a[0] * 31UL ^ p->a[1] * 131UL ^ p->a[2] * 1031UL ^ (unsigned long)ret;
+                if (sg == t->fail_sig) t->fail_repeat++; else { t->fail_sig = sg; t->fail_repeat = 1; }
+                if (t->fail_repeat > p_max_repeat && !kill_delivered) {
+                    verdict = "livelock_repeat";
+                    snprintf(verdict_detail, sizeof verdict_detail, "thread %d (%s) repeated %s = %ld more than %lu times without any successful call in between",
+                             t->tid, role_names[t->role], p->se->name, ret, p_max_repeat);
+                    if (sumfn_global) write_summary(sumfn_global, 0, 0, 0);
+                    kill(root_pid, SIGKILL); kill_delivered = 2;
+                }
+            } else if (ret >= 0) { t->fail_repeat = 0; t->fail_sig = 0; }
+        }
         /* fd bookkeeping */
         int logged = 0;
         if (p->se) {
@@ -1104,6 +1123,7 @@ int main(int argc, char **argv)
         else die("usage: xsup --plan P --log L --summary S -- cmd args...");
     }
     if (i >= argc || !sumfn) die("usage: xsup --plan P --log L --summary S -- cmd args...");
+    sumfn_global = sumfn;
     for (size_t k = 0; k < NSYS; k++) sysidx[systab[k].nr] = &systab[k];
     fdt = calloc(MAXFD, sizeof *fdt);
     if (planfn) parse_plan(planfn);
@@ -1254,6 +1274,6 @@ int main(int argc, char **argv)
     }
     if (!strcmp(verdict, "running")) verdict = kill_delivered == 1 ? "killed" : "exited";
     if (logf) fclose(logf);
-    if (strcmp(verdict, "deadlock")) write_summary(sumfn, root_exited && !root_sig, root_status, root_sig);
+    if (strcmp(verdict, "deadlock") && strcmp(verdict, "livelock_repeat")) write_summary(sumfn, root_exited && !root_sig, root_status, root_sig);
     return 0;
 }
